@@ -23,7 +23,7 @@ func init() {
 	sim.Register(&sim.Check{
 		ID: "C36", Title: "Finalization picks the common ancestor and extends a single chain", World: "consensus",
 		Gen: genC36, Exec: execC36,
-		Quick:    sim.Budget{Runs: 640, WallS: 25},
+		Quick:    sim.Budget{Runs: 480, WallS: 25},
 		Thorough: sim.Budget{Runs: 150000, WallS: 720},
 		LevelText: "seeded search: seeded block trees (forks of any depth up to the tree height, sibling blocks, branches that die out) are delivered to 1-3 independent real chain.Chain instances " +
 			"in seeded bounded-disorder orders (children before parents, duplicates, dropped blocks, blocks that arrive un-notarized, rounds whose object never appears); the shipped ComputeFinalizedBlock is called for seeded (lfb round, round) " +
@@ -248,6 +248,7 @@ func execC36(env *sim.Env, p *sim.Plan) *sim.Result {
 		panic("C36 needs the worker's testing.T (synctest bubble)")
 	}
 	synctest.Test(env.T, func(*testing.T) { runC36(tr, p) })
+	miDumpTrace(tr)
 	return tr.Result(p.Seed)
 }
 
@@ -571,7 +572,13 @@ func runC36(tr *sim.Trace, p *sim.Plan) {
 					in.rolled = true
 					viol("single-chain", "fin/lfb-rolled-back-to-ancestor", fmt.Sprintf("inst %d finalize round %d (notarized %v, common ancestor %s): LFB moved from %s back to %s", i, rn, rf.set, t.name(rf.want), t.name(prev), t.name(now)))
 				default:
-					viol("single-chain", "fin/lfb-switched-branch", fmt.Sprintf("inst %d finalize round %d: LFB moved from %s to %s, which does not descend from it", i, rn, t.name(prev), t.name(now)))
+					sig := "fin/lfb-switched-branch"
+					if in.rolled {
+						// the rollback leaves the rounds of the abandoned branch marked finalized, which lets
+						// finalizeBlockProcess connect a later chain to them instead of to the LFB
+						sig += "-after-lfb-rollback"
+					}
+					viol("single-chain", sig, fmt.Sprintf("inst %d finalize round %d: LFB moved from %s to %s, which does not descend from it", i, rn, t.name(prev), t.name(now)))
 				}
 			} else {
 				tr.Outcome("fin/no-progress")
